@@ -61,6 +61,7 @@ import time
 from concurrent.futures import ThreadPoolExecutor
 
 MASK = (1 << 64) - 1
+RUN_TIMEOUT = 10      # seconds for one generated executable; the check raises it when it re-runs a suspect
 REPO = os.environ.get("VERIF_REPO", "/repo")
 
 # name -> (size, class, C type, Capy type)
@@ -980,7 +981,8 @@ def run_program(capy_exe, prog, workdir, cflags=("-O0",)):
         res.update(status="link-failed", detail=p.stdout.decode("utf-8", "replace")[-2000:])
         return res
     try:
-        p = subprocess.run(["./t"], cwd=workdir, stdout=subprocess.PIPE, stderr=subprocess.PIPE, timeout=10)
+        p = subprocess.run(["./t"], cwd=workdir, stdout=subprocess.PIPE, stderr=subprocess.PIPE,
+                           timeout=RUN_TIMEOUT)
         got, rc = p.stdout.decode("utf-8", "replace"), p.returncode
     except subprocess.TimeoutExpired as e:
         got, rc = (e.stdout or b"").decode("utf-8", "replace"), "timeout"
